@@ -242,7 +242,7 @@ def get_crystal_structure(cell, conv_numbers, write_symmetry=False):
     lines += ("%d\n") % len(positions)
     # Conventional atomic number and cartesian coordinates of the atoms
     for i, pos in zip(conv_numbers, positions):
-        lines += ("  %d " + "%16.12f" * 3 + "\n") % (i, pos[0], pos[1], pos[2])
+        lines += ("  %d " + " %16.12f" * 3 + "\n") % (i, pos[0], pos[1], pos[2])
 
     return lines
 
